@@ -35,6 +35,25 @@ class Unsupported(Exception):
     pass
 
 
+def octet_helpers(modname):
+    """which of the names null / int2oct / oct2int / ints2octs / octs2ints of the module mean what the translation
+    assumes (octet strings are translated as tuples of ints); checked on the live module, not assumed"""
+    mod = importlib.import_module(modname)
+    ok = set()
+    try:
+        if getattr(mod, 'null', None) == b'':
+            ok.add('null')
+        f = getattr(mod, 'int2oct', None)
+        if f is not None and all(f(x) == bytes((x,)) for x in (0, 1, 127, 128, 200, 255)):
+            ok.add('int2oct')
+        f = getattr(mod, 'oct2int', None)
+        if f is not None and all(f(x) == x for x in (0, 1, 127, 128, 255)):
+            ok.add('oct2int')
+    except Exception:  # noqa
+        pass
+    return ok
+
+
 LEAN_TY = {'int': 'Int', 'bool': 'Bool', 'tup': 'Py.Tup'}
 
 
@@ -76,6 +95,7 @@ class Ctx(object):
         self.ntmp = 0
         self.fuels = list(spec.get('fuel', []))
         self.self_params = {}         # attr -> type
+        self.octets = octet_helpers(spec['octets']) if spec.get('octets') else set()
 
     def tmp(self):
         self.ntmp += 1
@@ -108,6 +128,8 @@ def tr_expr(cx, env, e):
     if isinstance(e, ast.Name):
         if e.id in env:
             return e.id, env[e.id], []
+        if e.id == 'null' and 'null' in cx.octets:
+            return '([] : Py.Tup)', 'tup', []
         raise Unsupported('unbound name %s' % e.id)
     if isinstance(e, ast.Attribute):
         d = dotted(e)
@@ -182,9 +204,25 @@ def tr_expr(cx, env, e):
     if isinstance(e, ast.BoolOp):
         parts = [tr_expr(cx, env, v) for v in e.values]
         pre = sum((p[2] for p in parts), [])
-        if any(p[2] for p in parts[1:]):
-            raise Unsupported('short-circuit operand with side effects: %s' % unparse(e))
         isand = isinstance(e.op, ast.And)
+        if any(p[2] for p in parts[1:]):
+            # a later operand may raise (it indexes a tuple) and the earlier ones guard it: evaluate lazily, as Python
+            # does; only as a truth value (every operand coerced), which is how the sources use it (`if a and t and t[0]`)
+            pre0 = parts[0][2]
+            acc = None
+            for lean, ty, pre_ in reversed(parts):
+                b_ = as_bool(lean, ty)
+                if acc is None:
+                    inner = 'pure %s' % b_
+                else:
+                    inner = ('if %s then %s else pure false' if isand else 'if %s then pure true else %s') % (b_, acc)
+                if pre_ and (lean, ty, pre_) != parts[0]:
+                    inner = '(do ' + '; '.join(pre_) + '; ' + inner + ')'
+                else:
+                    inner = '(' + inner + ')'
+                acc = inner
+            v = cx.tmp()
+            return v, 'bool', pre0 + ['let %s ← (%s : Py.M Bool)' % (v, acc)]
         if all(p[1] == 'bool' for p in parts):
             return '(' + (' && ' if isand else ' || ').join(p[0] for p in parts) + ')', 'bool', pre
         if all(p[1] == 'int' for p in parts):
@@ -246,6 +284,14 @@ def tr_expr(cx, env, e):
                 if tn == 'int' and ts == 'bool':
                     v = cx.tmp()
                     return v, 'tup', pa + pn + ps + ['let %s ← Py.toBytes %s %s %s' % (v, a, n, s)]
+        if isinstance(f, ast.Name) and f.id == 'int2oct' and 'int2oct' in cx.octets and len(e.args) == 1 and f.id not in env:
+            a, ta, pa = tr_expr(cx, env, e.args[0])
+            if ta == 'int':
+                return '[%s]' % a, 'tup', pa
+        if isinstance(f, ast.Name) and f.id == 'oct2int' and 'oct2int' in cx.octets and len(e.args) == 1 and f.id not in env:
+            a, ta, pa = tr_expr(cx, env, e.args[0])
+            if ta == 'int':
+                return a, 'int', pa
         if isinstance(f, ast.Name) and f.id == 'list' and len(e.args) == 1:
             a, ta, pa = tr_expr(cx, env, e.args[0])
             if ta == 'tup':
@@ -567,8 +613,24 @@ def branch_env(cx, env, stmts):
 
 # ---------------------------------------------------------------- kernels
 
+def descend(body, steps):
+    """steps: [[<test source>, 'body' | 'orelse'], ...] - walk into the named branch of the `if` with that test"""
+    for test, take in steps:
+        found = None
+        for st in body:
+            if isinstance(st, ast.If) and unparse(st.test).strip() == test.strip():
+                found = st
+                break
+        if found is None:
+            raise Unsupported('no `if %s` where the kernel is expected' % test)
+        body = list(found.body if take == 'body' else found.orelse)
+    return body
+
+
 def slice_body(fn, spec):
     body = list(fn.body)
+    if 'block' in spec:
+        body = descend(body, spec['block'])
     if 'after' in spec:
         idx = None
         for i, s in enumerate(body):
